@@ -125,7 +125,9 @@ RunJob(ji, type, fault) ==
       ok == st.out = "run"
       tomb == IF full /\ ok THEN Tombstones(st.f, st.np, EntOrder, st.seen, clock + 1) ELSE <<st.f, st.np>>
       \* incremental: tokens are stored page by page; fullsync: only at the successful end
-      newTok == IF full THEN (IF ok THEN pr[2] ELSE jobTok[ji]) ELSE pr[2]
+      \* (a full sync forgets the incremental position when it starts - fix of the hub: a sink that was only
+      \* partly re-written may hold older versions, the next run has to start from the beginning)
+      newTok == IF full THEN (IF ok THEN pr[2] ELSE [m \in 1..Len(j.src) |-> 0]) ELSE pr[2]
       outcome == IF ok THEN "ok" ELSE st.out
   IN /\ "job" \in Acts
      /\ Exists(j.sink) /\ \A m \in 1..Len(j.src) : Exists(j.src[m])
@@ -190,6 +192,16 @@ ConvergeOnSuccess ==
          IN (j.xf \in {"none", "identity", "dup"} /\ hist'[Len(hist')].type = "fullsync" /\ ~j.lo) =>
               \A x \in SrcLatest(j)' : ~IsDel(x[2]) => x \in Entities(j.sink)'
 Converges == [][ConvergeOnSuccess]_jvars
+
+\* C08 as stated, for ANY successful run of a job that is the only writer of its sink (single-job configurations):
+\* afterwards every latest version of the source - deleted ones included - is the sink's latest version of that id
+ConvergeAnyStep ==
+  (hist' # hist /\ hist'[Len(hist')].a = "job" /\ hist'[Len(hist')].outcome = "ok") =>
+     \A ji \in JobIdx :
+       (hist'[Len(hist')].j = ji) =>
+         LET j == JobSeq[ji]
+         IN j.xf \in {"none", "identity"} => \A x \in SrcLatest(j)' : x \in Entities(j.sink)'
+ConvergesAny == [][ConvergeAnyStep]_jvars
 
 \* C08: the persisted token never points past data that was not written to the sink:
 \* whatever happened before, a fault-free incremental run makes every live source version
